@@ -10,6 +10,8 @@
 //            only the event log is checked for them (prop_ok);
 //        6 / 7 = delete the key from the collection.Cache / the cache node
 //        9 = cache node: make every redis command fail (val = 1) / work again (val = 0)
+//        10 = cache node: overwrite the stored entry with bytes that do not unmarshal (the next Take drops it
+//             and reloads; logged as "del")
 //   key:  key%1000 is the key string, key/1000 the INSTANCE (0 or 1): every primitive / cache exists
 //         twice, the two instances must not share anything.
 //         key%1000 == 0 is the EMPTY key string.
@@ -112,8 +114,9 @@ func errCode(err error) int64 {
 	return -1
 }
 
-// gatedSF decorates the ResourceManager's SingleFlight: the caller parks at gate "pre"
-// (GetResource invoked, about to enter singleflight) before delegating.
+// gatedSF decorates the SingleFlight of a ResourceManager / of a collection.Cache: the caller parks
+// at gate "pre" (GetResource invoked / Take missed the cache; about to enter singleflight) before
+// delegating.
 type gatedSF struct {
 	inner syncx.SingleFlight
 	ctl   *sched.Ctl
@@ -258,8 +261,10 @@ func runCase(c Case) (out Out) {
 				} else {
 					in.cc, _ = collection.NewCache(time.Hour)
 				}
+				// gate between the cache miss in front of the barrier and barrier.Do
+				in.cc.VerifC07WrapBarrier(func(inner syncx.SingleFlight) syncx.SingleFlight { return &gatedSF{inner: inner, ctl: ctl} })
 			}
-			if (op[0] == 5 || op[0] == 7 || op[0] == 8 || op[0] == 9) && in.node == nil {
+			if (op[0] == 5 || op[0] == 7 || op[0] == 8 || op[0] == 9 || op[0] == 10) && in.node == nil {
 				var err error
 				in.mini, err = miniredis.Run()
 				if err != nil {
@@ -401,8 +406,7 @@ func runCase(c Case) (out Out) {
 				got = -1
 			}
 			ctl.Log(tid, "ret", i, got, errCode(err), -1)
-		case 6, 7: // invalidate the cached entry
-			ctl.Log(tid, "del", i, key)
+		case 6, 7: // invalidate the cached entry ("del" is stamped once it is gone)
 			if kind == 6 {
 				in.cc.Del(ks)
 			} else if in.fault {
@@ -411,6 +415,11 @@ func runCase(c Case) (out Out) {
 			} else {
 				_ = in.node.Del(ks)
 			}
+			ctl.Log(tid, "del", i, key)
+			ctl.Log(tid, "ret", i, -1, 0, -2)
+		case 10:
+			in.mini.Set(ks, "{not json")
+			ctl.Log(tid, "del", i, key)
 			ctl.Log(tid, "ret", i, -1, 0, -2)
 		case 9:
 			if val != 0 {
